@@ -319,3 +319,122 @@ Definition run_init (f : fs) (il : iflags) : result :=
       | _ => RFail f
       end
   end.
+
+(* ---------------------------------------------------------------- the standalone configuration file *)
+(* config.rs save_to_file / from_file: serde's derived (De)Serialize of GenerateConfig:
+   twelve snake_case keys in declaration order; Option fields are null when None; on
+   reading, an absent key takes the field's serde default (Option fields: None), a null is
+   None for an Option field and an error for a String field, a value of the wrong type is
+   an error, unknown keys are ignored. *)
+Definition ojb (o : option bool) : json := match o with Some b => JBool b | None => JNull end.
+Definition flat_json (c : config) : json := JObj [
+  ("project_path", JStr (project_path c)); ("output_path", JStr (output_path c));
+  ("validation_library", JStr (validation_library c));
+  ("verbose", ojb (verbose c)); ("visualize_deps", ojb (visualize_deps c));
+  ("include_private", ojb (include_private c)); ("type_mappings", omap (type_mappings c));
+  ("exclude_patterns", ostrs (exclude_patterns c)); ("include_patterns", ostrs (include_patterns c));
+  ("default_parameter_case", JStr (default_parameter_case c));
+  ("default_field_case", JStr (default_field_case c)); ("force", ojb (force c)) ].
+
+(* typed field readers; the outer None is a deserialisation error *)
+Definition fl_str (d : list (string * json)) (k dfl : string) : option string :=
+  match lookup k d with None => Some dfl | Some (JStr s) => Some s | Some _ => None end.
+Definition fl_obool (d : list (string * json)) (k : string) : option (option bool) :=
+  match lookup k d with
+  | None | Some JNull => Some None
+  | Some (JBool b) => Some (Some b)
+  | Some _ => None
+  end.
+Definition fl_ostrs (d : list (string * json)) (k : string) : option (option (list string)) :=
+  match lookup k d with
+  | None | Some JNull => Some None
+  | Some (JArr l) => option_map Some (all_strs l)
+  | Some _ => None
+  end.
+Definition fl_omap (d : list (string * json)) (k : string) : option (option (list (string * string))) :=
+  match lookup k d with
+  | None | Some JNull => Some None
+  | Some (JObj l) => option_map Some (all_str_vals l)
+  | Some _ => None
+  end.
+
+(* the root must be an object here (a JSON array, which serde would read positionally,
+   is outside the model: the correspondence never produces one) *)
+Definition from_flat (doc : json) : option config :=
+  match doc with
+  | JObj d =>
+    match fl_str d "project_path" (project_path dflt) with None => None | Some pp =>
+    match fl_str d "output_path" (output_path dflt) with None => None | Some op =>
+    match fl_str d "validation_library" (validation_library dflt) with None => None | Some vl =>
+    match fl_obool d "verbose" with None => None | Some vb =>
+    match fl_obool d "visualize_deps" with None => None | Some vd =>
+    match fl_obool d "include_private" with None => None | Some ip =>
+    match fl_omap d "type_mappings" with None => None | Some tm =>
+    match fl_ostrs d "exclude_patterns" with None => None | Some ep =>
+    match fl_ostrs d "include_patterns" with None => None | Some ipat =>
+    match fl_str d "default_parameter_case" (default_parameter_case dflt) with None => None | Some pc =>
+    match fl_str d "default_field_case" (default_field_case dflt) with None => None | Some fc =>
+    match fl_obool d "force" with None => None | Some fo =>
+      Some {| project_path := pp; output_path := op; validation_library := vl; verbose := vb;
+              visualize_deps := vd; include_private := ip; type_mappings := tm; exclude_patterns := ep;
+              include_patterns := ipat; default_parameter_case := pc; default_field_case := fc; force := fo |}
+    end end end end end end end end end end end end
+  | _ => None
+  end.
+
+(* config.rs:122 from_file: read, deserialise, validate (before any override) *)
+Definition from_file (f : fs) (p : string) : option config :=
+  match fs_get f p with
+  | Some (NDoc (Some d)) =>
+      match from_flat d with
+      | Some c => match validate f c with None => Some c | Some _ => None end
+      | None => None
+      end
+  | _ => None
+  end.
+
+(* run_generate after the configuration has been loaded: overrides, validate, run *)
+Definition run_with (f : fs) (fl : flags) (c0 : config) : result :=
+  let c := apply_flags fl c0 in
+  match validate f c with
+  | Some e => RReject e f
+  | None =>
+      let e := eff_of fl c in
+      match fs_get f (project_path c) with
+      | Some NProj =>
+          RRun e (fs_put f (output_path c)
+                    (NOut {| g_project := norm (project_path c); g_lib := validation_library c; g_viz := e_visualize e |}))
+      | _ => RNoCommands e f
+      end
+  end.
+
+(* bin:91-98 generate -c <file>: a missing, unreadable, malformed or invalid file is an error *)
+Definition run_generate_c (f : fs) (fl : flags) (p : string) : result :=
+  match from_file f p with
+  | Some c0 => run_with f fl c0
+  | None => RFail f
+  end.
+
+(* build/mod.rs load_configuration, seen from the project root: the section of
+   tauri.conf.json if it loads and validates, else typegen.json if it loads and validates,
+   else the defaults (failures are logged as warnings) *)
+Definition build_config (f : fs) : config :=
+  match from_tauri_config f "tauri.conf.json" with
+  | LOk c => c
+  | _ => match from_file f "typegen.json" with Some c => c | None => dflt end
+  end.
+
+Definition no_flags : flags :=
+  {| f_project := None; f_output := None; f_validation := None; f_verbose := false;
+     f_visualize := false; f_force := false |}.
+
+(* build/mod.rs run_generation from the project root: no flags, no further validation *)
+Definition run_build (f : fs) : result := 
+  let c := build_config f in
+  let e := eff_of no_flags c in
+  match fs_get f (project_path c) with
+  | Some NProj =>
+      RRun e (fs_put f (output_path c)
+                (NOut {| g_project := norm (project_path c); g_lib := validation_library c; g_viz := e_visualize e |}))
+  | _ => RNoCommands e f
+  end.
